@@ -176,6 +176,12 @@ func (w *World) exec(cs *clientState, idx int, op Op) *Rec {
 	r.InvMs = s.SimTime().Milliseconds()
 	r.ComInv = b.GetCurrentRevision()
 	ctx := context.Background()
+	if op.Timeout > 0 {
+		// a deadline on the simulated clock, like the one the etcd-facing handlers put on every write
+		var cancelT context.CancelFunc
+		ctx, cancelT = context.WithTimeout(ctx, time.Duration(op.Timeout)*time.Millisecond)
+		defer cancelT()
+	}
 	w.inflight[task] = r
 	cs.busyNode = op.Node
 	finish := func() {
